@@ -16,7 +16,9 @@ import (
 	libp2ptls "github.com/libp2p/go-libp2p/p2p/security/tls"
 	libp2pquic "github.com/libp2p/go-libp2p/p2p/transport/quic"
 	"github.com/libp2p/go-libp2p/p2p/transport/tcp"
+	libp2pwebrtc "github.com/libp2p/go-libp2p/p2p/transport/webrtc"
 	"github.com/libp2p/go-libp2p/p2p/transport/websocket"
+	webtransport "github.com/libp2p/go-libp2p/p2p/transport/webtransport"
 	ma "github.com/multiformats/go-multiaddr"
 	"pgregory.net/rapid"
 
@@ -56,6 +58,10 @@ var e2eConfigs = []e2eConfig{
 		opts: func(uint64) []libp2p.Option { return append(secOpts("noise"), libp2p.Transport(websocket.New)) }},
 	{name: "quic", listen: []string{"/ip4/127.0.0.1/udp/0/quic-v1"}, dialTo: "/quic-v1",
 		opts: func(uint64) []libp2p.Option { return []libp2p.Option{libp2p.Transport(libp2pquic.NewTransport)} }},
+	{name: "webtransport", listen: []string{"/ip4/127.0.0.1/udp/0/quic-v1/webtransport"}, dialTo: "/webtransport",
+		opts: func(uint64) []libp2p.Option { return []libp2p.Option{libp2p.Transport(webtransport.New)} }},
+	{name: "webrtc-direct", listen: []string{"/ip4/127.0.0.1/udp/0/webrtc-direct"}, dialTo: "/webrtc-direct",
+		opts: func(uint64) []libp2p.Option { return []libp2p.Option{libp2p.Transport(libp2pwebrtc.New)} }},
 	{name: "shared-listener:tcp+tls", shared: true, listen: []string{"/ip4/127.0.0.1/tcp/0", "/ip4/127.0.0.1/tcp/PORT/ws"}, dialTo: "",
 		opts: func(uint64) []libp2p.Option {
 			return append(secOpts("tls"), libp2p.ShareTCPListener(), libp2p.Transport(tcp.NewTCPTransport), libp2p.Transport(websocket.New))
@@ -104,21 +110,8 @@ func newE2EPair(cfg e2eConfig, key uint64) (hosts [2]host.Host, dial []ma.Multia
 		return hosts, nil, fmt.Errorf("host A: %w", err)
 	}
 	for _, a := range hB.Network().ListenAddresses() {
-		isWS := strings.HasSuffix(a.String(), "/ws")
-		isQUIC := strings.HasSuffix(a.String(), "/quic-v1")
-		switch cfg.dialTo {
-		case "":
-			if !isWS && !isQUIC {
-				dial = append(dial, a)
-			}
-		case "/ws":
-			if isWS {
-				dial = append(dial, a)
-			}
-		case "/quic-v1":
-			if isQUIC {
-				dial = append(dial, a)
-			}
+		if kindOf(a) == cfg.dialTo {
+			dial = append(dial, a)
 		}
 	}
 	if len(dial) == 0 {
@@ -204,9 +197,30 @@ func TestL6Loopback(t *testing.T) {
 	}
 }
 
+// kindOf classifies a listen address by the dialTo suffix of the configurations.
+func kindOf(a ma.Multiaddr) string {
+	s := a.String()
+	switch {
+	case strings.Contains(s, "/webtransport"):
+		return "/webtransport"
+	case strings.Contains(s, "/webrtc-direct"):
+		return "/webrtc-direct"
+	case strings.Contains(s, "/quic-v1"):
+		return "/quic-v1"
+	case strings.HasSuffix(s, "/ws"):
+		return "/ws"
+	default:
+		return ""
+	}
+}
+
 func transportOf(a ma.Multiaddr) string {
 	s := a.String()
 	switch {
+	case strings.Contains(s, "/webtransport"):
+		return "webtransport"
+	case strings.Contains(s, "/webrtc-direct"):
+		return "webrtc-direct"
 	case strings.Contains(s, "/quic-v1"):
 		return "quic"
 	case strings.HasSuffix(s, "/ws"):
